@@ -32,6 +32,8 @@ func runC16(c *Ctx) {
 	checkGithubStickyErrorAndTitle(c)
 	checkIdentityFoundByWhatWasStored(c, "R16.16")
 	checkErrorAssertionsLive(c, "R16.17")
+	checkImportersForceLabelChanges(c, "R16.18")
+	checkSinceSelectsIssuesOnly(c, "R16.19")
 }
 
 // R16.1
